@@ -894,6 +894,14 @@ def emit_block(blk, rel, out_lines, meta):
     record["panic_sites"] = panic_sites(text) if r.kind in ("fn", "closure", "impl") else {}
 
     # ---- rewrites
+    if any(d == "rewrite" for d, _a, _p, _t in blk.subs):
+        # R0: a comment-only line between two segments of a method chain (`x\n  // note\n  .f()`) is dropped before the chain rewrites
+        # look at the text; comments are not tokens, so the self-check is unaffected
+        _cm = re.compile(r"\n[ \t]*//(?!@|#|~)[^\n]*(?=\n[ \t]*\.)")
+        _n = len(_cm.findall(text))
+        if _n:
+            text = _cm.sub("", text)
+            record["rewrites"].append({"rewrite": "R0 chain comments", "why": "comment-only lines inside a method chain dropped (no tokens)", "sites": [{"count": _n}]})
     for d, arg, payload, tl in blk.subs:
         if d == "rewrite":
             for name in arg.split():
